@@ -14,13 +14,14 @@ CHECKS = {
                 "over a symbolic wire with an injective chunk-signature chain, embedded in a model of SetupServer / "
                 "MakeSignatureMiddleware (is the decoder installed?) and of the handler's commit-on-EOF / rollback-on-error. "
                 "TLC proves StoredIsDecoded and four auxiliary invariants on the intended design for every case (payload 0..3 "
-                "units, all chunkings into <=3 chunks, 4 streaming modes x 5 trailer algorithms x 2 trailer framings, 13 wire "
+                "units, all chunkings into <=3 chunks, 4 streaming modes x 5 trailer algorithms x 2 trailer framings, 14 wire "
                 "mutations at every position, auth enabled/disabled/anonymous, PutObject/UploadPart, key empty/occupied). "
-                "TLC emits the case space and the wire of every sampled case; the Go driver concretises the wire into bytes "
+                "TLC emits the case space and the wire of every executed case; the Go driver concretises the wire into bytes "
                 "with real SigV4 chunk signatures and checksums, sends it to the real handler stack (server.SetupServer, "
                 "sqlite metadatapart storage), observes status and a following GetObject, and TLC validates every observation "
                 "against the model of the code and evaluates the property on it. Model checking is exhaustive over the symbolic "
-                "space; conformance is exhaustive (thorough) or a seeded stratified sample (quick).",
+                "space; conformance runs a seeded stratified sample of it (600 quick / 12 000 thorough, every (mutation, mode, auth) "
+                "stratum covered).",
         "note": "symbolic signatures/checksums are injective (no HMAC/CRC collisions); one symbolic unit = one byte or one "
                 "seeded block of 2..65537 bytes; framing mutations only at unit scale (chunk <= consumer read buffer); "
                 "'tampered' means: contradicts integrity evidence the configuration can verify (chunk signatures need "
@@ -96,7 +97,7 @@ def run(ctx):
     if not factors:
         raise vlib.Infra("factor generation failed\n%s" % r.output[-2000:])
     space = expand(factors)
-    n = ctx.pick(600, len(space))
+    n = ctx.pick(600, 12000)
     picked = stratified(space, n, rng) if n < len(space) else space
     for i, c in enumerate(picked):
         c["l"] = i + 1
@@ -126,20 +127,24 @@ def run(ctx):
     #    self-test: an accepted and a rejected observation, each followed by a corrupted copy
     good = [i for i, r in enumerate(trace) if r["ok"] and r["stored_kind"] == "units" and len(r["stored_units"]) > 0]
     bad = [i for i, r in enumerate(trace) if not r["ok"]]
-    if not good or not bad:
-        raise vlib.Infra("self-test needs an accepted non-empty upload and a rejected one")
-    t1 = dict(trace[good[0]])
-    t1["stored_units"] = t1["stored_units"][:-1]
-    t2 = dict(trace[bad[0]])
-    t2["ok"] = True
-    vlib.write_ndjson(ctx.path("tv.ndjson"), trace + [trace[good[0]], t1, trace[bad[0]], t2])
+    deferred = []          # infrastructure complaints that must not mask a violation
+    selftest = []
+    if good and bad:
+        t1 = dict(trace[good[0]])
+        t1["stored_units"] = t1["stored_units"][:-1]
+        t2 = dict(trace[bad[0]])
+        t2["ok"] = True
+        selftest = [trace[good[0]], t1, trace[bad[0]], t2]
+    else:
+        deferred.append("self-test needs an accepted non-empty upload and a rejected one")
+    vlib.write_ndjson(ctx.path("tv.ndjson"), trace + selftest)
     devs = ctx.deviations("D-C30")
     tsub = {"Deviations": devs, "Algos": algos_txt, "Scales": '{"unit", "block"}'}
     nlines, flagged = ctx.validate_cases("ChunkedTrace", "Chunked.Trace.cfg", ctx.path("tv.ndjson"),
                                          timeout=ctx.pick(600, 3000), subst=tsub)
-    nlines -= 4
-    ctx.traces -= 4
-    ctx.events -= 4
+    nlines -= len(selftest)
+    ctx.traces -= len(selftest)
+    ctx.events -= len(selftest)
     ctx.evaluations = nlines
     covrec = [f for f in flagged if "coverage" in f]
     flagged = [f for f in flagged if "coverage" not in f]
@@ -149,7 +154,7 @@ def run(ctx):
     want = {"Header", "ZeroChunk", "Trailer", "TrailerChecksum", "FinalCRLF", "Data", "CRLF", "ValidateChunk", "Return",
             "sig", "parse", "malformed", "baddigest", "unexpectedEOF"}
     if not want <= seen:
-        raise vlib.Infra("decoder states / error kinds never exercised by the executed cases: %s" % sorted(want - seen))
+        deferred.append("decoder states / error kinds never exercised by the executed cases: %s" % sorted(want - seen))
     ctx.extra["decoder_trail_coverage"] = sorted(seen)
     ctx.extra["distinct_nontrivial"] = sum(1 for r in trace if nontrivial(r))
     ctx.extra["exhaustive"] = (len(picked) == len(space))
@@ -161,7 +166,7 @@ def run(ctx):
     ctx.extra["rejected"] = sum(1 for r in trace if not r["ok"])
     ctx.extra["over_tcp"] = sum(1 for r in trace if r["tcp"])
     if ctx.extra["accepted"] == 0 or ctx.extra["rejected"] == 0:
-        raise vlib.Infra("degenerate run: accepted=%d rejected=%d" % (ctx.extra["accepted"], ctx.extra["rejected"]))
+        deferred.append("degenerate run: accepted=%d rejected=%d" % (ctx.extra["accepted"], ctx.extra["rejected"]))
     for r in trace[:3]:
         ctx.sample({k: r[k] for k in ("chunks", "mode", "algo", "mut", "at", "auth", "op", "prev", "ok", "status",
                                      "stored_kind", "stored_units")})
@@ -180,9 +185,12 @@ def run(ctx):
     # 6. binding self-test verdicts
     base = set(rec["l"] - 1 for rec in flagged)
     N = len(trace)
-    expect = {N + 2, N + 4} | ({N + 1} if good[0] in base else set()) | ({N + 3} if bad[0] in base else set())
-    if set(rec["l"] for rec in sflag) != expect:
-        raise vlib.Infra("binding self-test: corrupted observations not flagged as expected: %s" % sflag)
+    if selftest:
+        expect = {N + 2, N + 4} | ({N + 1} if good[0] in base else set()) | ({N + 3} if bad[0] in base else set())
+        if set(rec["l"] for rec in sflag) != expect:
+            deferred.append("binding self-test: corrupted observations not flagged as expected: %s" % sflag)
+    if deferred and not ctx.violations:
+        raise vlib.Infra("; ".join(deferred))
 
     ctx.assumptions += [
         "symbolic signatures and checksums are injective; the driver concretises them with real HMAC-SHA256 / CRC / SHA code",
